@@ -327,6 +327,8 @@ def _requests(ctx, obj):
                   'assert_missing': r.random() < 0.4, 'planes': None, 'segs_none': False}
             if segs == d['nums'] and r.random() < 0.3:
                 rq['segs_none'] = True
+            # every accepted spelling of the segment numbers: list / tuple / ndarray / lists of numpy integers
+            rq['spelling'] = r.choice(['list', 'list', 'list', 'tuple', 'ndarray', 'npint', 'npuint16'])
             if entry in ('instance', 'frame', 'div'):
                 k = r.randint(1, min(P + 1, 4))
                 planes = [r.randrange(P) for _ in range(k)] if r.random() < 0.2 else r.sample(range(P), min(k, P))
@@ -473,7 +475,9 @@ def _run_read(ctx, obj, rq, frames, info):
     seg = obj['seg']
     d = obj['d']
     store = obj['store']
-    kw = dict(segment_numbers=None if rq['segs_none'] else list(rq['segs']), combine_segments=rq['combine'],
+    spell = {'list': list, 'tuple': tuple, 'ndarray': np.array, 'npint': lambda v: [np.int64(x) for x in v],
+             'npuint16': lambda v: [np.uint16(x) for x in v]}[rq.get('spelling', 'list')]
+    kw = dict(segment_numbers=None if rq['segs_none'] else spell(list(rq['segs'])), combine_segments=rq['combine'],
               relabel=rq['relabel'], rescale_fractional=rq['rescale'], skip_overlap_checks=rq['skip'])
     if rq['dtype'] is not None:
         kw['dtype'] = np.dtype(rq['dtype'])
@@ -623,7 +627,8 @@ def _run_read(ctx, obj, rq, frames, info):
              kind=d['kind'], via=d['via'], nseg=len(d['nums']), subset_size=len(rq['segs']),
              options=f"c{int(rq['combine'])}r{int(rq['relabel'])}s{int(rq['skip'])}f{int(rq['rescale'])}",
              dtype=str(rq['dtype']), outcome=outcome, expect=exp[0] if not must_refuse_missing else 'refuse-missing',
-             labels16=max(d['nums']) > 255, region=bool(rq.get('region') or rq.get('vrange')))
+             labels16=max(d['nums']) > 255, region=bool(rq.get('region') or rq.get('vrange')),
+             spelling=rq.get('spelling', 'list'))
     site = f"{entry}/{d['type']}/{'combine' if rq['combine'] else 'stack'}"
     if must_refuse_missing:
         if st == 'ok':
